@@ -1,7 +1,7 @@
 (* Traversal resolver = Lua's binder, part 3: `local n_0, ..., n_k = e_0, ..., e_m` (local_loop of Model/Scope.v).
-   The traversal adds n_i BEFORE visiting e_(i+1): inside e_(i+1) its environment has the extra entries n_0..n_i.
-   The simulation is run with the exception set "name among the earlier names and bound like in the environment of the
-   statement" - exactly the occurrences the reference binder tags CB3. *)
+   Since fixes/C07-multi-local-order.diff the traversal visits ALL the initialisers in the environment of the
+   statement and adds the names afterwards - exactly what the reference binder does; the former exception set (class
+   B3, tag CB3: uses of an earlier name of the statement in a later initialiser) is gone. *)
 From Coq Require Import List NArith ZArith Bool Lia Permutation.
 From LH Require Import Base.Bytes Model.Lexer Model.Ast Model.Scope Spec.LuaScope
   Proofs.TraverseBindDefs Proofs.TraverseBindSim Proofs.TraverseBindLoops.
@@ -55,83 +55,24 @@ Proof.
   cbn [fold_left rev]. rewrite IH, <- app_assoc. reflexivity.
 Qed.
 
-(* ------------------------------------------------------------------ the CB3 tag on cores *)
-Definition set_b3 (c : core) : core := mkC (c_loc c) (c_name c) (c_bind c) (c_role c) true.
-Definition retag (en : env) (earlier : list (list N)) (c : core) : core :=
-  if negb (is_decl (c_role c)) && binding_eqb (c_bind c) (resolve en (c_name c)) && name_in (c_name c) earlier
-  then set_b3 c else c.
-
-Lemma filter_map_comm {A} (p : A -> bool) (f : A -> A) l :
-  (forall x, p (f x) = p x) -> filter p (map f l) = map f (filter p l).
-Proof.
-  intros H. induction l as [|x r IH]; [reflexivity|]. cbn. rewrite H. destruct (p x); cbn; rewrite IH; reflexivity.
-Qed.
-
-Lemma ccore_tag_local_init en ns i e os :
-  ccore (tag_local_init en ns i e os) = map (retag en (firstn i ns)) (ccore os).
-Proof.
-  unfold ccore. rewrite <- filter_map_comm.
-  2:{ intros c. unfold retag. destruct (_ && _ && _); reflexivity. }
-  f_equal. unfold tag_local_init, tag_if. rewrite !map_map. apply map_ext. intros o.
-  set (c1 := outer_use en o && name_in (s_name o) ns && negb _).
-  assert (Hsame : forall o', s_name o' = s_name o -> s_bind o' = s_bind o -> s_role o' = s_role o ->
-                             (outer_use en o' && name_in (s_name o') (firstn i ns))
-                             = (negb (is_decl (c_role (core_of o))) && binding_eqb (c_bind (core_of o))
-                                  (resolve en (c_name (core_of o))) && name_in (c_name (core_of o)) (firstn i ns))).
-  { intros o' H1 H2 H3. unfold outer_use. rewrite H1, H2, H3. reflexivity. }
-  unfold retag.
-  destruct c1.
-  - rewrite (Hsame (add_tag CB1 o)) by reflexivity.
-    destruct (_ && _ && _); [reflexivity|]. apply core_add_tag. discriminate.
-  - rewrite (Hsame o) by reflexivity. destruct (_ && _ && _); reflexivity.
-Qed.
-
 Lemma loc_eqb_refl l : loc_eqb l l = true.
 Proof. unfold loc_eqb. rewrite !Z.eqb_refl. reflexivity. Qed.
 Lemma binding_eqb_refl b : binding_eqb b b = true.
 Proof. destruct b; cbn; [apply loc_eqb_refl|apply beq_refl]. Qed.
 
-Definition exc_local (Exc : excp) (en : env) (earlier : list (list N)) : excp :=
-  fun n b => Exc n b \/ (name_in n earlier = true /\ b = resolve en n).
-
-Lemma Rc_retag C Exc en earlier o c :
-  Rc C (exc_local Exc en earlier) o c -> Rc C Exc o (retag en earlier c).
-Proof.
-  intros [H1 [H2 [H3 [H5 H4]]]]. unfold retag.
-  destruct (negb (is_decl (c_role c)) && binding_eqb (c_bind c) (resolve en (c_name c)) && name_in (c_name c) earlier) eqn:E.
-  - repeat split; auto. cbn. intros _ _ Hf. discriminate.
-  - repeat split; auto. intros Hc Hex Hb. apply H4; auto.
-    intros [He|[Hn Hb']]; [contradiction|].
-    rewrite Hb', binding_eqb_refl, Hn in E.
-    destruct (c_role c); cbn in E; try discriminate. destruct (o_kind o); contradiction.
-Qed.
-
-(* the extra entries of the innermost frame only concern the earlier names *)
-Lemma efind_app a b n : efind (a ++ b) n = match efind a n with Some x => Some x | None => efind b n end.
-Proof.
-  induction a as [|x r IH]; [reflexivity|]. cbn [app]. rewrite !efind_cons.
-  destruct (beq_bytes (fst (fst x)) n); [reflexivity|exact IH].
-Qed.
-
-Lemma EQ_extras Exc en earlier done ent :
-  (forall n, efind done n <> None -> name_in n earlier = true) ->
-  EQ Exc ent en -> EQ (exc_local Exc en earlier) (done ++ ent) en.
-Proof.
-  intros Hd H n. rewrite efind_app. destruct (efind done n) eqn:E.
-  - right. right. split; [|reflexivity]. apply Hd. rewrite E. discriminate.
-  - destruct (H n) as [H1|H1]; [left; exact H1|right; left; exact H1].
-Qed.
-
-Lemma name_in_app n a b : name_in n (a ++ b) = name_in n a || name_in n b.
-Proof. unfold name_in. apply existsb_app. Qed.
-
 Lemma ccore_decl_pairs en flv slv reg (l : list (list N * loc * bool)) :
   ccore (map (fun x => decl_occ en flv slv reg (snd x) (fst x)) l) = [].
 Proof. induction l as [|x r IH]; [reflexivity|]. cbn. exact IH. Qed.
 
-Lemma Forall2_map_r {A B} (R : A -> B -> Prop) (f : B -> B) xs ys :
-  Forall2 (fun a b => R a (f b)) xs ys -> Forall2 R xs (map f ys).
-Proof. induction 1; cbn; constructor; auto. Qed.
+(* the class tags of the initialisers (CB1 only) do not touch the cores *)
+Lemma ccore_local_inits en ns (f : exp -> list socc) : forall es k,
+  ccore (concat (index_map (fun i eo => tag_local_init en ns i (fst eo) (snd eo)) k (map (fun e => (e, f e)) es)))
+  = ccore (flat_map f es).
+Proof.
+  induction es as [|e r IH]; intros k; [reflexivity|].
+  cbn [map index_map concat flat_map fst snd]. rewrite !ccore_app, IH. f_equal.
+  unfold tag_local_init. apply ccore_tag_if. discriminate.
+Qed.
 
 (* ------------------------------------------------------------------ the loop *)
 Section LocalLoop.
@@ -159,79 +100,38 @@ Section LocalLoop.
       + rewrite <- app_assoc. exact H2.
   Qed.
 
-  Lemma local_loop_sim (en : env) (Exc : excp) (seg : env) (rest : list env) (ns : list (list N)) (es : list exp)
-        (lc : bool) :
+  (* the names are added after all the initialisers were visited: no occurrence is logged, the innermost frame gets
+     the declarations with the flags of local_empties *)
+  Lemma local_adds_sim (es : list exp) (lc : bool) rest :
     lc = match rev es with ECall _ _ _ _ :: _ => true | _ => false end ->
-    EQ Exc (concat (seg :: rest)) en ->
-    forall es_r ns_r ls_r earlier pre done st lastc k,
-    ns = earlier ++ ns_r -> length earlier = k -> es = pre ++ es_r ->
-    length ns_r = length ls_r -> (length es_r <= length ns_r)%nat ->
-    Forall (PeSim flv slv reg) es_r ->
+    forall es_r ns_r ls_r pre st top lastc,
+    es = pre ++ es_r -> length ns_r = length ls_r -> (length es_r <= length ns_r)%nat ->
     (es_r = [] -> lc = true -> lastc <> RNone) ->
-    (forall n, efind done n <> None -> name_in n earlier = true) ->
-    FRS st ((done ++ seg) :: rest) ->
-    exists news cs,
-      t_occs (local_loop (map (fun e => (e, tr_exp flv e)) es_r) (combine ns_r ls_r) lastc st) = rev news ++ t_occs st /\
-      FRS (local_loop (map (fun e => (e, tr_exp flv e)) es_r) (combine ns_r ls_r) lastc st)
-          ((rev (combine (combine ns_r ls_r) (le_rec ns_r es_r lc)) ++ done ++ seg) :: rest) /\
-      Permutation cs (ccore (concat (index_map (fun i eo => tag_local_init en ns i (fst eo) (snd eo)) k
-                                               (map (fun e => (e, b_exp flv slv reg e en)) es_r)))) /\
-      Forall2 (Rc (fun nm => cl_local_loop (map (fun e => (e, tr_exp flv e, cl_exp nm flv e)) es_r)
-                                           (combine ns_r ls_r) st) Exc) news cs.
+    FRS st (top :: rest) ->
+    t_occs (local_adds es_r (combine ns_r ls_r) lastc st) = t_occs st /\
+    FRS (local_adds es_r (combine ns_r ls_r) lastc st)
+        ((rev (combine (combine ns_r ls_r) (le_rec ns_r es_r lc)) ++ top) :: rest).
   Proof.
-    intros Hlc Heq.
-    induction es_r as [|e es' IH]; intros ns_r ls_r earlier pre done st lastc k Hns Hk Hes Hlen Hle Hsim Hlast Hdone Hfr.
-    - exists [], []. cbn [map local_loop].
-      destruct (local_rest_sim lc rest ns_r ls_r st (done ++ seg) lastc) as [H1 H2].
-      + intros Hr. destruct lc; [|reflexivity]. exfalso. apply (Hlast eq_refl eq_refl).
-        destruct lastc; [reflexivity|discriminate..].
-      + exact Hfr.
-      + cbn zeta in H1, H2. repeat split.
-        * exact H1.
-        * exact H2.
-        * apply Permutation_refl.
-        * constructor.
+    intros Hlc. induction es_r as [|e es' IH]; intros ns_r ls_r pre st top lastc Hes Hlen Hle Hlast Hfr.
+    - cbn [local_adds]. apply (local_rest_sim lc rest ns_r ls_r st top lastc); [|exact Hfr].
+      intros Hr. destruct lc; [|reflexivity]. exfalso. apply (Hlast eq_refl eq_refl).
+      destruct lastc; [reflexivity|discriminate..].
     - destruct ns_r as [|n ns']; [cbn in Hle; lia|].
       destruct ls_r as [|l0 ls']; [discriminate|].
-      pose proof (Forall_inv Hsim) as He. pose proof (Forall_inv_tail Hsim) as Hsim'. subst es.
-      cbn [map combine local_loop cl_local_loop le_rec index_map concat fst snd].
-      (* the initialiser, visited with the earlier names already declared *)
-      assert (Heq' : EQ (exc_local Exc en earlier) (concat ((done ++ seg) :: rest)) en).
-      { cbn [concat]. rewrite <- app_assoc. apply EQ_extras; [exact Hdone|exact Heq]. }
-      destruct (He st ((done ++ seg) :: rest) en (exc_local Exc en earlier) Hfr ltac:(discriminate) Heq')
-        as [n1 [k1 [A1 [A2 [A3 A4]]]]].
-      set (st1 := tr_exp flv e st) in *.
+      cbn [combine local_adds le_rec rev].
       set (v := mkV n l0 (ref_of_exp e) (refer_empty n e)).
       assert (Hv : VR v ((n, l0), refer_empty n e)) by (repeat split; cbn; auto).
-      pose proof (FRS_add _ _ _ _ _ Hv A2) as Hfr2.
-      destruct (IH ns' ls' (earlier ++ [n]) (pre ++ [e]) (((n, l0), refer_empty n e) :: done) (add_var v st1)
-                   (match e with ECall _ _ _ _ => ref_of_exp e | _ => RNone end) (S k))
-        as [n2 [k2 [B1 [B2 [B3 B4]]]]].
-      + rewrite <- app_assoc. exact Hns.
-      + rewrite app_length, Hk. cbn. lia.
-      + rewrite <- app_assoc. reflexivity.
+      destruct (IH ns' ls' (pre ++ [e]) (add_var v st) (((n, l0), refer_empty n e) :: top)
+                   (match e with ECall _ _ _ _ => ref_of_exp e | _ => RNone end)) as [H1 H2].
+      + rewrite <- app_assoc. exact Hes.
       + cbn in Hlen. lia.
       + cbn in Hle. lia.
-      + exact Hsim'.
-      + intros He' Hl. subst es'. rewrite rev_app_distr in Hlc. cbn in Hlc.
+      + intros He' Hl. subst es'. rewrite Hes, rev_app_distr in Hlc. cbn in Hlc.
         rewrite Hl in Hlc. destruct e; try discriminate Hlc. cbn. intros Hx. discriminate Hx.
-      + intros m Hm. rewrite efind_cons in Hm. cbn [fst snd] in Hm. rewrite name_in_app.
-        destruct (beq_bytes n m) eqn:Enm.
-        * apply beq_bytes_eq in Enm. subst m. cbn. rewrite beq_refl. apply orb_true_r.
-        * rewrite (Hdone m Hm). reflexivity.
-      + exact Hfr2.
-      + exists (n1 ++ n2), (map (retag en earlier) k1 ++ k2). repeat split.
-        * rewrite B1, add_var_occs, A1, rev_app_distr, app_assoc. reflexivity.
-        * cbn [rev]. rewrite <- app_assoc. exact B2.
-        * rewrite ccore_app. apply Permutation_app; [|exact B3].
-          rewrite ccore_tag_local_init.
-          assert (Hf : firstn k (earlier ++ n :: ns') = earlier).
-          { rewrite <- Hk. rewrite firstn_app, Nat.sub_diag, firstn_all. cbn. apply app_nil_r. }
-          rewrite Hns, Hf. apply Permutation_map. exact A3.
-        * apply Forall2_app.
-          -- eapply Rc_mono; [|apply Forall2_map_r; apply (Forall2_impl _ _ _ _ (fun o c => Rc_retag _ Exc en earlier o c) A4)].
-             intros m Hm. cbv beta in Hm. apply andb_true_iff in Hm. apply Hm.
-          -- eapply Rc_mono; [|exact B4]. intros m Hm. cbv beta in Hm. apply andb_true_iff in Hm. apply Hm.
+      + apply FRS_add; assumption.
+      + split.
+        * rewrite H1. apply add_var_occs.
+        * rewrite <- app_assoc. exact H2.
   Qed.
 
   Lemma local_sim ns ls ats es l :
@@ -241,16 +141,25 @@ Section LocalLoop.
   Proof.
     intros Hlen Hle Hsim st seg rest en Exc Hfr Heq.
     set (lc := match rev es with ECall _ _ _ _ :: _ => true | _ => false end).
-    destruct (local_loop_sim en Exc seg rest ns es lc eq_refl Heq es ns ls [] [] [] st RNone O)
-      as [news [cs [H1 [H2 [H3 H4]]]]]; auto.
+    assert (Hlec : (length es <= length (combine ns ls))%nat) by (rewrite combine_length; lia).
+    pose proof (SimE_list (fun e => tr_exp flv e) (fun e nm => cl_exp nm flv e) (fun e en => b_exp flv slv reg e en)
+                          es Hsim) as HL.
+    destruct (HL st (seg :: rest) en Exc Hfr ltac:(discriminate) Heq) as [news [cs [A1 [A2 [A3 A4]]]]].
+    destruct (local_adds_sim es lc rest eq_refl es ns ls [] (apply_all (map (fun e => tr_exp flv e) es) st) seg RNone
+                             eq_refl Hlen Hle) as [B1 B2].
     - intros He Hl. subst es. discriminate.
+    - exact A2.
     - exists news, cs, (rev (combine (combine ns ls) (le_rec ns es lc)) ++ seg).
-      cbn [tr_stat b_stat cl_stat fst snd]. repeat split.
-      + exact H1.
-      + exact H2.
+      cbn [tr_stat b_stat cl_stat fst snd].
+      pose proof (local_loop_shape (fun e => tr_exp flv e) es (combine ns ls) RNone st Hlec) as Eloop. cbv beta in Eloop.
+      unfold tT in Eloop. rewrite Eloop. repeat split.
+      + rewrite B1. exact A1.
+      + exact B2.
       + rewrite push_decls_rev, local_empties_rec. fold lc. cbn [concat]. rewrite <- app_assoc.
         apply EQ_app. exact Heq.
-      + rewrite ccore_app, ccore_decl_pairs, app_nil_r. exact H3.
-      + exact H4.
+      + rewrite ccore_app, ccore_decl_pairs, app_nil_r, ccore_local_inits. exact A3.
+      + eapply Rc_mono; [|exact A4]. intros nm Hn. cbv beta in Hn |- *.
+        pose proof (cl_local_loop_shape (fun e => tr_exp flv e) (fun e => cl_exp nm flv e) es (combine ns ls) st Hlec) as Ecl.
+        cbv beta in Ecl. unfold tT, tC in Ecl. rewrite Ecl in Hn. exact Hn.
   Qed.
 End LocalLoop.
